@@ -331,12 +331,27 @@ impl TypeChecker {
 
     /// Ensure imported items are public in the dependency module.
     fn validate_import_visibility(&mut self, import: &ImportDecl, span: Span) {
-        let ImportKind::From { module, items } = &import.kind else {
-            return;
+        // `from module import a, b` names its items explicitly; `import module::item` imports its last segment.
+        let (module_segments, item_names, module_display): (Vec<Ident>, Vec<Ident>, String) = match &import.kind {
+            ImportKind::From { module, items } => (
+                module.segments.clone(),
+                items.iter().map(|item| item.name.clone()).collect(),
+                module.to_rust_path(),
+            ),
+            ImportKind::Module(path) if path.segments.len() > 1 => {
+                let module_segments = path.segments[..path.segments.len() - 1].to_vec();
+                let display = module_segments.join("::");
+                (
+                    module_segments,
+                    vec![path.segments[path.segments.len() - 1].clone()],
+                    display,
+                )
+            }
+            _ => return,
         };
 
         // Only check modules that were pre-imported; skip std and unresolved ones.
-        let module_name = module.segments.join("_");
+        let module_name = module_segments.join("_");
         let Some(exports) = self.dependency_exports.get(&module_name) else {
             return;
         };
@@ -356,16 +371,15 @@ impl TypeChecker {
             }
         }
 
-        for item in items {
-            if !exported_names.contains(&item.name) {
+        for item_name in &item_names {
+            if !exported_names.contains(item_name) {
                 let message = format!(
                     "Cannot import `{}` from `{}`: it is private or not exported. Mark it `pub` in that module.",
-                    item.name,
-                    module.to_rust_path()
+                    item_name, module_display
                 );
                 let hint = format!(
                     "Public exports from `{}`: {}",
-                    module.to_rust_path(),
+                    module_display,
                     if exported_names.is_empty() {
                         "<none>".to_string()
                     } else {
